@@ -139,7 +139,7 @@ func init() {
 		Rule:        "explicit-state BFS to closure over (code order, cursor) on the 3-block and the loop-with-gap programs from 4 roots (initial, after an instruction move, after a block move, after both); menu in every state: down/up N and goto N for N in {0,1,2,3,Len-2,Len-1,Len,Len+1,2^31}, entry, find P for P in {addi, Block, sw, jal, ecall, zzz, ^$, the text unique to the cursor line's neighbours}; model cursor computed independently (entry = header line of the entry instruction's block + 1 + its current index; find = first matching line after the cursor, cyclically, excluding the cursor line); a command that cannot be performed must show an error and leave the cursor unchanged. Non-trivial = command that moves the cursor.",
 		Assumptions: []string{"find patterns are literal strings or ^$ (judged with substring matching, not with the regex engine)"},
 		Run: func(r *eng.Run) {
-			for _, pn := range []string{"three-blocks", "loop-with-gap", "one-instruction"} {
+			for _, pn := range []string{"three-blocks", "loop-with-gap", "one-instruction", "sym-blocks"} {
 				p := progByName(pn)
 				s0, err := uix.New(p.Segs, p.Entry)
 				if err != nil {
